@@ -1,3 +1,4 @@
+import itertools
 from datetime import datetime
 try:
     from functools import lru_cache
@@ -249,7 +250,9 @@ def parse_filter(filter):
 
 ## --- Generate python to apply filter
 FILTER_CACHE_LRU_SIZE = 500
-_id_function = 0
+# Source of unique names for the generated functions.  next() on it is atomic,
+# so two threads compiling filters at the same time never get the same name.
+_id_function = itertools.count()
 
 
 class _NotFoundValue():
@@ -369,14 +372,12 @@ class _FnWrapper():
 
 @lru_cache(maxsize=FILTER_CACHE_LRU_SIZE)
 def _filter_function(filter):
-    global _id_function
     literals = []
     def_filter = _generate_filter_in_python(parse_filter(filter)._head, [], literals)
-    fun_name = "_gen_hsfilter_" + str(_id_function)
+    fun_name = "_gen_hsfilter_" + str(next(_id_function))
     function_template = "def %s(_grid, _entity, _literals=_LITERALS[%r]):\n  return " \
                         % (fun_name, fun_name) + "".join(def_filter)
     print("\nGenerate:\n# " + filter + "\n" + function_template)  # FIXME: debug
-    _id_function += 1
     return _FnWrapper(fun_name, function_template, literals)
 
 
